@@ -6,432 +6,406 @@
   the result slot exactly the value (or enters the trap handler with exactly the code) that
   the WebAssembly specification (`Spec.Int`) prescribes.  All 2^32 / 2^64 values per operand.
 -/
-import W2c2Verif.Props.C01
-import W2c2Verif.Model.EmitNumeric
-import W2c2Verif.Spec.Num
+import W2c2Verif.Lemmas.NumEval
 
 namespace W2c2Verif.Props.C01
 open W2c2Verif
-
-/-- the callable definitions visible to emitted code: the macros of w2c2_base.h (this host's configuration) -/
-def macroDefs : Defs := defsOfMacros Gen.macrosLE noDefs
-theorem repr0 : Nat.repr 0 = "0" := by decide
-theorem repr1 : Nat.repr 1 = "1" := by decide
-
-/-- evaluate `runNumeric` on a concrete opcode: table lookup, statement construction, slot names -/
-macro "num_unfold" : tactic => `(tactic|
-  simp +decide [Model.runNumeric, lookupAssoc, Gen.emitTable, Model.numEmit, Model.binOpOfString, Model.unaryExpr,
-    Model.isIdent, Model.parseCastChain, Model.lookupVT, Gen.opcodeResultType, Gen.opcodeParam1Type,
-    Model.slotName, Gen.VT.idx, Gen.VT.cty, Gen.VT.signedCty, Gen.VT.shiftMask, Gen.stackNamePrefix,
-    Gen.valueTypeStackNames, Gen.valueTypeNames, Gen.signedTypeNames, Gen.shiftMaskStrings, CTy.ofName, repr0, repr1])
-
-/-- evaluate the emitted statement; calls of header macros are rewritten with the theorems of part A -/
-macro "num_eval" : tactic => `(tactic|
-  simp +decide [CExpr.eval, CExpr.typeOf, CStmt.exec_seq, CStmt.exec_skip, CStmt.exec_decl,
-        CStmt.exec_assign, CStmt.exec_opAssign, CStmt.exec_ifThen, CStmt.exec_ret, Env.get, Env.set,
-        CVal.fromNat, CVal.fromInt, CVal.binop, CVal.unop, CVal.shift, CVal.withAmt, CPrim.amtOk, CTy.common, CTy.promote, CVal.ty,
-        CPrim.cmpS, CPrim.cmpU, CPrim.arithS, CPrim.arithU, CPrim.shiftU, CPrim.shiftS, BinOp.isCmp,
-        Out.map', builtin1, builtin2, signbitSem, macroDefs, defsOfMacros, lookupAssoc, Gen.macrosLE, CVal.truthy,
-        i32_div_s_correct, i64_div_s_correct, i32_rem_s_correct, i64_rem_s_correct,
-        i32_div_u_correct, i64_div_u_correct, i32_rem_u_correct, i64_rem_u_correct,
-        i32_rotl_correct, i64_rotl_correct, i32_rotr_correct, i64_rotr_correct,
-        -BitVec.shiftLeft_eq', -BitVec.ushiftRight_eq', -BitVec.sshiftRight_eq'])
 
 
 set_option maxRecDepth 8192 in
 theorem op_i32_eqz (x : BitVec 32) :
     Model.runNumeric macroDefs "wasmOpcodeI32Eqz" [(.i32, .u32 x)] = .val (.u32 (Spec.ieqz x)) := by
   num_unfold; num_eval
-  simp [Spec.bool32, Spec.ieqz_eq, Spec.ieq_eq, Spec.ine_eq, Spec.ilt_s_eq, Spec.ilt_u_eq, Spec.igt_s_eq, Spec.igt_u_eq, Spec.ile_s_eq, Spec.ile_u_eq, Spec.ige_s_eq, Spec.ige_u_eq]
+  all_goals (simp [Spec.bool32, Spec.ieqz_eq, Spec.ieq_eq, Spec.ine_eq, Spec.ilt_s_eq, Spec.ilt_u_eq, Spec.igt_s_eq, Spec.igt_u_eq, Spec.ile_s_eq, Spec.ile_u_eq, Spec.ige_s_eq, Spec.ige_u_eq]; try (split <;> rfl))
 
 set_option maxRecDepth 8192 in
 theorem op_i32_eq (x : BitVec 32) (y : BitVec 32) :
     Model.runNumeric macroDefs "wasmOpcodeI32Eq" [(.i32, .u32 x), (.i32, .u32 y)] = .val (.u32 (Spec.ieq x y)) := by
   num_unfold; num_eval
-  simp [Spec.bool32, Spec.ieqz_eq, Spec.ieq_eq, Spec.ine_eq, Spec.ilt_s_eq, Spec.ilt_u_eq, Spec.igt_s_eq, Spec.igt_u_eq, Spec.ile_s_eq, Spec.ile_u_eq, Spec.ige_s_eq, Spec.ige_u_eq]
+  all_goals (simp [Spec.bool32, Spec.ieqz_eq, Spec.ieq_eq, Spec.ine_eq, Spec.ilt_s_eq, Spec.ilt_u_eq, Spec.igt_s_eq, Spec.igt_u_eq, Spec.ile_s_eq, Spec.ile_u_eq, Spec.ige_s_eq, Spec.ige_u_eq]; try (split <;> rfl))
 
 set_option maxRecDepth 8192 in
 theorem op_i32_ne (x : BitVec 32) (y : BitVec 32) :
     Model.runNumeric macroDefs "wasmOpcodeI32Ne" [(.i32, .u32 x), (.i32, .u32 y)] = .val (.u32 (Spec.ine x y)) := by
   num_unfold; num_eval
-  simp [Spec.bool32, Spec.ieqz_eq, Spec.ieq_eq, Spec.ine_eq, Spec.ilt_s_eq, Spec.ilt_u_eq, Spec.igt_s_eq, Spec.igt_u_eq, Spec.ile_s_eq, Spec.ile_u_eq, Spec.ige_s_eq, Spec.ige_u_eq]
+  all_goals (simp [Spec.bool32, Spec.ieqz_eq, Spec.ieq_eq, Spec.ine_eq, Spec.ilt_s_eq, Spec.ilt_u_eq, Spec.igt_s_eq, Spec.igt_u_eq, Spec.ile_s_eq, Spec.ile_u_eq, Spec.ige_s_eq, Spec.ige_u_eq]; try (split <;> rfl))
 
 set_option maxRecDepth 8192 in
 theorem op_i32_lt_s (x : BitVec 32) (y : BitVec 32) :
     Model.runNumeric macroDefs "wasmOpcodeI32LtS" [(.i32, .u32 x), (.i32, .u32 y)] = .val (.u32 (Spec.ilt_s x y)) := by
   num_unfold; num_eval
-  simp [Spec.bool32, Spec.ieqz_eq, Spec.ieq_eq, Spec.ine_eq, Spec.ilt_s_eq, Spec.ilt_u_eq, Spec.igt_s_eq, Spec.igt_u_eq, Spec.ile_s_eq, Spec.ile_u_eq, Spec.ige_s_eq, Spec.ige_u_eq]
+  all_goals (simp [Spec.bool32, Spec.ieqz_eq, Spec.ieq_eq, Spec.ine_eq, Spec.ilt_s_eq, Spec.ilt_u_eq, Spec.igt_s_eq, Spec.igt_u_eq, Spec.ile_s_eq, Spec.ile_u_eq, Spec.ige_s_eq, Spec.ige_u_eq]; try (split <;> rfl))
 
 set_option maxRecDepth 8192 in
 theorem op_i32_lt_u (x : BitVec 32) (y : BitVec 32) :
     Model.runNumeric macroDefs "wasmOpcodeI32LtU" [(.i32, .u32 x), (.i32, .u32 y)] = .val (.u32 (Spec.ilt_u x y)) := by
   num_unfold; num_eval
-  simp [Spec.bool32, Spec.ieqz_eq, Spec.ieq_eq, Spec.ine_eq, Spec.ilt_s_eq, Spec.ilt_u_eq, Spec.igt_s_eq, Spec.igt_u_eq, Spec.ile_s_eq, Spec.ile_u_eq, Spec.ige_s_eq, Spec.ige_u_eq]
+  all_goals (simp [Spec.bool32, Spec.ieqz_eq, Spec.ieq_eq, Spec.ine_eq, Spec.ilt_s_eq, Spec.ilt_u_eq, Spec.igt_s_eq, Spec.igt_u_eq, Spec.ile_s_eq, Spec.ile_u_eq, Spec.ige_s_eq, Spec.ige_u_eq]; try (split <;> rfl))
 
 set_option maxRecDepth 8192 in
 theorem op_i32_gt_s (x : BitVec 32) (y : BitVec 32) :
     Model.runNumeric macroDefs "wasmOpcodeI32GtS" [(.i32, .u32 x), (.i32, .u32 y)] = .val (.u32 (Spec.igt_s x y)) := by
   num_unfold; num_eval
-  simp [Spec.bool32, Spec.ieqz_eq, Spec.ieq_eq, Spec.ine_eq, Spec.ilt_s_eq, Spec.ilt_u_eq, Spec.igt_s_eq, Spec.igt_u_eq, Spec.ile_s_eq, Spec.ile_u_eq, Spec.ige_s_eq, Spec.ige_u_eq]
+  all_goals (simp [Spec.bool32, Spec.ieqz_eq, Spec.ieq_eq, Spec.ine_eq, Spec.ilt_s_eq, Spec.ilt_u_eq, Spec.igt_s_eq, Spec.igt_u_eq, Spec.ile_s_eq, Spec.ile_u_eq, Spec.ige_s_eq, Spec.ige_u_eq]; try (split <;> rfl))
 
 set_option maxRecDepth 8192 in
 theorem op_i32_gt_u (x : BitVec 32) (y : BitVec 32) :
     Model.runNumeric macroDefs "wasmOpcodeI32GtU" [(.i32, .u32 x), (.i32, .u32 y)] = .val (.u32 (Spec.igt_u x y)) := by
   num_unfold; num_eval
-  simp [Spec.bool32, Spec.ieqz_eq, Spec.ieq_eq, Spec.ine_eq, Spec.ilt_s_eq, Spec.ilt_u_eq, Spec.igt_s_eq, Spec.igt_u_eq, Spec.ile_s_eq, Spec.ile_u_eq, Spec.ige_s_eq, Spec.ige_u_eq]
+  all_goals (simp [Spec.bool32, Spec.ieqz_eq, Spec.ieq_eq, Spec.ine_eq, Spec.ilt_s_eq, Spec.ilt_u_eq, Spec.igt_s_eq, Spec.igt_u_eq, Spec.ile_s_eq, Spec.ile_u_eq, Spec.ige_s_eq, Spec.ige_u_eq]; try (split <;> rfl))
 
 set_option maxRecDepth 8192 in
 theorem op_i32_le_s (x : BitVec 32) (y : BitVec 32) :
     Model.runNumeric macroDefs "wasmOpcodeI32LeS" [(.i32, .u32 x), (.i32, .u32 y)] = .val (.u32 (Spec.ile_s x y)) := by
   num_unfold; num_eval
-  simp [Spec.bool32, Spec.ieqz_eq, Spec.ieq_eq, Spec.ine_eq, Spec.ilt_s_eq, Spec.ilt_u_eq, Spec.igt_s_eq, Spec.igt_u_eq, Spec.ile_s_eq, Spec.ile_u_eq, Spec.ige_s_eq, Spec.ige_u_eq]
+  all_goals (simp [Spec.bool32, Spec.ieqz_eq, Spec.ieq_eq, Spec.ine_eq, Spec.ilt_s_eq, Spec.ilt_u_eq, Spec.igt_s_eq, Spec.igt_u_eq, Spec.ile_s_eq, Spec.ile_u_eq, Spec.ige_s_eq, Spec.ige_u_eq]; try (split <;> rfl))
 
 set_option maxRecDepth 8192 in
 theorem op_i32_le_u (x : BitVec 32) (y : BitVec 32) :
     Model.runNumeric macroDefs "wasmOpcodeI32LeU" [(.i32, .u32 x), (.i32, .u32 y)] = .val (.u32 (Spec.ile_u x y)) := by
   num_unfold; num_eval
-  simp [Spec.bool32, Spec.ieqz_eq, Spec.ieq_eq, Spec.ine_eq, Spec.ilt_s_eq, Spec.ilt_u_eq, Spec.igt_s_eq, Spec.igt_u_eq, Spec.ile_s_eq, Spec.ile_u_eq, Spec.ige_s_eq, Spec.ige_u_eq]
+  all_goals (simp [Spec.bool32, Spec.ieqz_eq, Spec.ieq_eq, Spec.ine_eq, Spec.ilt_s_eq, Spec.ilt_u_eq, Spec.igt_s_eq, Spec.igt_u_eq, Spec.ile_s_eq, Spec.ile_u_eq, Spec.ige_s_eq, Spec.ige_u_eq]; try (split <;> rfl))
 
 set_option maxRecDepth 8192 in
 theorem op_i32_ge_s (x : BitVec 32) (y : BitVec 32) :
     Model.runNumeric macroDefs "wasmOpcodeI32GeS" [(.i32, .u32 x), (.i32, .u32 y)] = .val (.u32 (Spec.ige_s x y)) := by
   num_unfold; num_eval
-  simp [Spec.bool32, Spec.ieqz_eq, Spec.ieq_eq, Spec.ine_eq, Spec.ilt_s_eq, Spec.ilt_u_eq, Spec.igt_s_eq, Spec.igt_u_eq, Spec.ile_s_eq, Spec.ile_u_eq, Spec.ige_s_eq, Spec.ige_u_eq]
+  all_goals (simp [Spec.bool32, Spec.ieqz_eq, Spec.ieq_eq, Spec.ine_eq, Spec.ilt_s_eq, Spec.ilt_u_eq, Spec.igt_s_eq, Spec.igt_u_eq, Spec.ile_s_eq, Spec.ile_u_eq, Spec.ige_s_eq, Spec.ige_u_eq]; try (split <;> rfl))
 
 set_option maxRecDepth 8192 in
 theorem op_i32_ge_u (x : BitVec 32) (y : BitVec 32) :
     Model.runNumeric macroDefs "wasmOpcodeI32GeU" [(.i32, .u32 x), (.i32, .u32 y)] = .val (.u32 (Spec.ige_u x y)) := by
   num_unfold; num_eval
-  simp [Spec.bool32, Spec.ieqz_eq, Spec.ieq_eq, Spec.ine_eq, Spec.ilt_s_eq, Spec.ilt_u_eq, Spec.igt_s_eq, Spec.igt_u_eq, Spec.ile_s_eq, Spec.ile_u_eq, Spec.ige_s_eq, Spec.ige_u_eq]
+  all_goals (simp [Spec.bool32, Spec.ieqz_eq, Spec.ieq_eq, Spec.ine_eq, Spec.ilt_s_eq, Spec.ilt_u_eq, Spec.igt_s_eq, Spec.igt_u_eq, Spec.ile_s_eq, Spec.ile_u_eq, Spec.ige_s_eq, Spec.ige_u_eq]; try (split <;> rfl))
 
 set_option maxRecDepth 8192 in
 theorem op_i32_clz (x : BitVec 32) :
     Model.runNumeric macroDefs "wasmOpcodeI32Clz" [(.i32, .u32 x)] = .val (.u32 (Spec.iclz x)) := by
   num_unfold; num_eval
-  num_bits
+  all_goals (first | rfl | bv_close)
 
 set_option maxRecDepth 8192 in
 theorem op_i32_ctz (x : BitVec 32) :
     Model.runNumeric macroDefs "wasmOpcodeI32Ctz" [(.i32, .u32 x)] = .val (.u32 (Spec.ictz x)) := by
   num_unfold; num_eval
-  num_bits
+  all_goals (first | rfl | bv_close)
 
 set_option maxRecDepth 8192 in
 theorem op_i32_popcnt (x : BitVec 32) :
     Model.runNumeric macroDefs "wasmOpcodeI32PopCnt" [(.i32, .u32 x)] = .val (.u32 (Spec.ipopcnt x)) := by
   num_unfold; num_eval
-  num_bits
+  all_goals (first | rfl | bv_close)
 
 set_option maxRecDepth 8192 in
 theorem op_i32_add (x : BitVec 32) (y : BitVec 32) :
     Model.runNumeric macroDefs "wasmOpcodeI32Add" [(.i32, .u32 x), (.i32, .u32 y)] = .val (.u32 (Spec.iadd x y)) := by
   num_unfold; num_eval
-  first | rfl | (simp [Spec.iadd, Spec.isub, Spec.imul, Spec.iand, Spec.ior, Spec.ixor, Spec.wrap_i64, Spec.extend_i32_s, Spec.extend_i32_u, Spec.iextend_s]; done) | bv_close
+  all_goals first | rfl | (simp [Spec.iadd, Spec.isub, Spec.imul, Spec.iand, Spec.ior, Spec.ixor, Spec.wrap_i64, Spec.extend_i32_s, Spec.extend_i32_u, Spec.iextend_s]; done) | bv_close | (simp only [Spec.wrap_i64, Spec.extend_i32_s, Spec.extend_i32_u, Spec.iextend_s]; bv_close)
 
 set_option maxRecDepth 8192 in
 theorem op_i32_sub (x : BitVec 32) (y : BitVec 32) :
     Model.runNumeric macroDefs "wasmOpcodeI32Sub" [(.i32, .u32 x), (.i32, .u32 y)] = .val (.u32 (Spec.isub x y)) := by
   num_unfold; num_eval
-  first | rfl | (simp [Spec.iadd, Spec.isub, Spec.imul, Spec.iand, Spec.ior, Spec.ixor, Spec.wrap_i64, Spec.extend_i32_s, Spec.extend_i32_u, Spec.iextend_s]; done) | bv_close
+  all_goals first | rfl | (simp [Spec.iadd, Spec.isub, Spec.imul, Spec.iand, Spec.ior, Spec.ixor, Spec.wrap_i64, Spec.extend_i32_s, Spec.extend_i32_u, Spec.iextend_s]; done) | bv_close | (simp only [Spec.wrap_i64, Spec.extend_i32_s, Spec.extend_i32_u, Spec.iextend_s]; bv_close)
 
 set_option maxRecDepth 8192 in
 theorem op_i32_mul (x : BitVec 32) (y : BitVec 32) :
     Model.runNumeric macroDefs "wasmOpcodeI32Mul" [(.i32, .u32 x), (.i32, .u32 y)] = .val (.u32 (Spec.imul x y)) := by
   num_unfold; num_eval
-  first | rfl | (simp [Spec.iadd, Spec.isub, Spec.imul, Spec.iand, Spec.ior, Spec.ixor, Spec.wrap_i64, Spec.extend_i32_s, Spec.extend_i32_u, Spec.iextend_s]; done) | bv_close
+  all_goals first | rfl | (simp [Spec.iadd, Spec.isub, Spec.imul, Spec.iand, Spec.ior, Spec.ixor, Spec.wrap_i64, Spec.extend_i32_s, Spec.extend_i32_u, Spec.iextend_s]; done) | bv_close | (simp only [Spec.wrap_i64, Spec.extend_i32_s, Spec.extend_i32_u, Spec.iextend_s]; bv_close)
 
 set_option maxRecDepth 8192 in
 theorem op_i32_div_s (x : BitVec 32) (y : BitVec 32) :
     Model.runNumeric macroDefs "wasmOpcodeI32DivS" [(.i32, .u32 x), (.i32, .u32 y)] = (Spec.idiv_s x y).map' .u32 := by
   num_unfold; num_eval
-  cases Spec.idiv_s x y <;> simp
+  cases Spec.idiv_s x y <;> simp [CVal.fromNat, Env.get]
 
 set_option maxRecDepth 8192 in
 theorem op_i32_div_u (x : BitVec 32) (y : BitVec 32) :
     Model.runNumeric macroDefs "wasmOpcodeI32DivU" [(.i32, .u32 x), (.i32, .u32 y)] = (Spec.idiv_u x y).map' .u32 := by
   num_unfold; num_eval
-  cases Spec.idiv_u x y <;> simp
+  cases Spec.idiv_u x y <;> simp [CVal.fromNat, Env.get]
 
 set_option maxRecDepth 8192 in
 theorem op_i32_rem_s (x : BitVec 32) (y : BitVec 32) :
     Model.runNumeric macroDefs "wasmOpcodeI32RemS" [(.i32, .u32 x), (.i32, .u32 y)] = (Spec.irem_s x y).map' .u32 := by
   num_unfold; num_eval
-  cases Spec.irem_s x y <;> simp
+  cases Spec.irem_s x y <;> simp [CVal.fromNat, Env.get]
 
 set_option maxRecDepth 8192 in
 theorem op_i32_rem_u (x : BitVec 32) (y : BitVec 32) :
     Model.runNumeric macroDefs "wasmOpcodeI32RemU" [(.i32, .u32 x), (.i32, .u32 y)] = (Spec.irem_u x y).map' .u32 := by
   num_unfold; num_eval
-  cases Spec.irem_u x y <;> simp
+  cases Spec.irem_u x y <;> simp [CVal.fromNat, Env.get]
 
 set_option maxRecDepth 8192 in
 theorem op_i32_and (x : BitVec 32) (y : BitVec 32) :
     Model.runNumeric macroDefs "wasmOpcodeI32And" [(.i32, .u32 x), (.i32, .u32 y)] = .val (.u32 (Spec.iand x y)) := by
   num_unfold; num_eval
-  first | rfl | (simp [Spec.iadd, Spec.isub, Spec.imul, Spec.iand, Spec.ior, Spec.ixor, Spec.wrap_i64, Spec.extend_i32_s, Spec.extend_i32_u, Spec.iextend_s]; done) | bv_close
+  all_goals first | rfl | (simp [Spec.iadd, Spec.isub, Spec.imul, Spec.iand, Spec.ior, Spec.ixor, Spec.wrap_i64, Spec.extend_i32_s, Spec.extend_i32_u, Spec.iextend_s]; done) | bv_close | (simp only [Spec.wrap_i64, Spec.extend_i32_s, Spec.extend_i32_u, Spec.iextend_s]; bv_close)
 
 set_option maxRecDepth 8192 in
 theorem op_i32_or (x : BitVec 32) (y : BitVec 32) :
     Model.runNumeric macroDefs "wasmOpcodeI32Or" [(.i32, .u32 x), (.i32, .u32 y)] = .val (.u32 (Spec.ior x y)) := by
   num_unfold; num_eval
-  first | rfl | (simp [Spec.iadd, Spec.isub, Spec.imul, Spec.iand, Spec.ior, Spec.ixor, Spec.wrap_i64, Spec.extend_i32_s, Spec.extend_i32_u, Spec.iextend_s]; done) | bv_close
+  all_goals first | rfl | (simp [Spec.iadd, Spec.isub, Spec.imul, Spec.iand, Spec.ior, Spec.ixor, Spec.wrap_i64, Spec.extend_i32_s, Spec.extend_i32_u, Spec.iextend_s]; done) | bv_close | (simp only [Spec.wrap_i64, Spec.extend_i32_s, Spec.extend_i32_u, Spec.iextend_s]; bv_close)
 
 set_option maxRecDepth 8192 in
 theorem op_i32_xor (x : BitVec 32) (y : BitVec 32) :
     Model.runNumeric macroDefs "wasmOpcodeI32Xor" [(.i32, .u32 x), (.i32, .u32 y)] = .val (.u32 (Spec.ixor x y)) := by
   num_unfold; num_eval
-  first | rfl | (simp [Spec.iadd, Spec.isub, Spec.imul, Spec.iand, Spec.ior, Spec.ixor, Spec.wrap_i64, Spec.extend_i32_s, Spec.extend_i32_u, Spec.iextend_s]; done) | bv_close
+  all_goals first | rfl | (simp [Spec.iadd, Spec.isub, Spec.imul, Spec.iand, Spec.ior, Spec.ixor, Spec.wrap_i64, Spec.extend_i32_s, Spec.extend_i32_u, Spec.iextend_s]; done) | bv_close | (simp only [Spec.wrap_i64, Spec.extend_i32_s, Spec.extend_i32_u, Spec.iextend_s]; bv_close)
 
 set_option maxRecDepth 8192 in
 theorem op_i32_shl (x : BitVec 32) (y : BitVec 32) :
     Model.runNumeric macroDefs "wasmOpcodeI32Shl" [(.i32, .u32 x), (.i32, .u32 y)] = .val (.u32 (Spec.ishl x y)) := by
   num_unfold; num_eval
-  simp only [Spec.ishl_eq32]; bv_close
+  all_goals (simp only [Spec.ishl_eq32]; bv_close)
 
 set_option maxRecDepth 8192 in
 theorem op_i32_shr_s (x : BitVec 32) (y : BitVec 32) :
     Model.runNumeric macroDefs "wasmOpcodeI32ShrS" [(.i32, .u32 x), (.i32, .u32 y)] = .val (.u32 (Spec.ishr_s x y)) := by
   num_unfold; num_eval
-  simp only [Spec.ishr_s_eq32]; bv_close
+  all_goals (simp only [Spec.ishr_s_eq32]; bv_close)
 
 set_option maxRecDepth 8192 in
 theorem op_i32_shr_u (x : BitVec 32) (y : BitVec 32) :
     Model.runNumeric macroDefs "wasmOpcodeI32ShrU" [(.i32, .u32 x), (.i32, .u32 y)] = .val (.u32 (Spec.ishr_u x y)) := by
   num_unfold; num_eval
-  simp only [Spec.ishr_u_eq32]; bv_close
+  all_goals (simp only [Spec.ishr_u_eq32]; bv_close)
 
 set_option maxRecDepth 8192 in
 theorem op_i32_rotl (x : BitVec 32) (y : BitVec 32) :
     Model.runNumeric macroDefs "wasmOpcodeI32Rotl" [(.i32, .u32 x), (.i32, .u32 y)] = .val (.u32 (Spec.irotl x y)) := by
   num_unfold; num_eval
-  first | rfl | (simp [Spec.iadd, Spec.isub, Spec.imul, Spec.iand, Spec.ior, Spec.ixor, Spec.wrap_i64, Spec.extend_i32_s, Spec.extend_i32_u, Spec.iextend_s]; done) | bv_close
+  all_goals first | rfl | (simp [Spec.iadd, Spec.isub, Spec.imul, Spec.iand, Spec.ior, Spec.ixor, Spec.wrap_i64, Spec.extend_i32_s, Spec.extend_i32_u, Spec.iextend_s]; done) | bv_close | (simp only [Spec.wrap_i64, Spec.extend_i32_s, Spec.extend_i32_u, Spec.iextend_s]; bv_close)
 
 set_option maxRecDepth 8192 in
 theorem op_i32_rotr (x : BitVec 32) (y : BitVec 32) :
     Model.runNumeric macroDefs "wasmOpcodeI32Rotr" [(.i32, .u32 x), (.i32, .u32 y)] = .val (.u32 (Spec.irotr x y)) := by
   num_unfold; num_eval
-  first | rfl | (simp [Spec.iadd, Spec.isub, Spec.imul, Spec.iand, Spec.ior, Spec.ixor, Spec.wrap_i64, Spec.extend_i32_s, Spec.extend_i32_u, Spec.iextend_s]; done) | bv_close
+  all_goals first | rfl | (simp [Spec.iadd, Spec.isub, Spec.imul, Spec.iand, Spec.ior, Spec.ixor, Spec.wrap_i64, Spec.extend_i32_s, Spec.extend_i32_u, Spec.iextend_s]; done) | bv_close | (simp only [Spec.wrap_i64, Spec.extend_i32_s, Spec.extend_i32_u, Spec.iextend_s]; bv_close)
 
 set_option maxRecDepth 8192 in
 theorem op_i64_eqz (x : BitVec 64) :
     Model.runNumeric macroDefs "wasmOpcodeI64Eqz" [(.i64, .u64 x)] = .val (.u32 (Spec.ieqz x)) := by
   num_unfold; num_eval
-  simp [Spec.bool32, Spec.ieqz_eq, Spec.ieq_eq, Spec.ine_eq, Spec.ilt_s_eq, Spec.ilt_u_eq, Spec.igt_s_eq, Spec.igt_u_eq, Spec.ile_s_eq, Spec.ile_u_eq, Spec.ige_s_eq, Spec.ige_u_eq]
+  all_goals (simp [Spec.bool32, Spec.ieqz_eq, Spec.ieq_eq, Spec.ine_eq, Spec.ilt_s_eq, Spec.ilt_u_eq, Spec.igt_s_eq, Spec.igt_u_eq, Spec.ile_s_eq, Spec.ile_u_eq, Spec.ige_s_eq, Spec.ige_u_eq]; try (split <;> rfl))
 
 set_option maxRecDepth 8192 in
 theorem op_i64_eq (x : BitVec 64) (y : BitVec 64) :
     Model.runNumeric macroDefs "wasmOpcodeI64Eq" [(.i64, .u64 x), (.i64, .u64 y)] = .val (.u32 (Spec.ieq x y)) := by
   num_unfold; num_eval
-  simp [Spec.bool32, Spec.ieqz_eq, Spec.ieq_eq, Spec.ine_eq, Spec.ilt_s_eq, Spec.ilt_u_eq, Spec.igt_s_eq, Spec.igt_u_eq, Spec.ile_s_eq, Spec.ile_u_eq, Spec.ige_s_eq, Spec.ige_u_eq]
+  all_goals (simp [Spec.bool32, Spec.ieqz_eq, Spec.ieq_eq, Spec.ine_eq, Spec.ilt_s_eq, Spec.ilt_u_eq, Spec.igt_s_eq, Spec.igt_u_eq, Spec.ile_s_eq, Spec.ile_u_eq, Spec.ige_s_eq, Spec.ige_u_eq]; try (split <;> rfl))
 
 set_option maxRecDepth 8192 in
 theorem op_i64_ne (x : BitVec 64) (y : BitVec 64) :
     Model.runNumeric macroDefs "wasmOpcodeI64Ne" [(.i64, .u64 x), (.i64, .u64 y)] = .val (.u32 (Spec.ine x y)) := by
   num_unfold; num_eval
-  simp [Spec.bool32, Spec.ieqz_eq, Spec.ieq_eq, Spec.ine_eq, Spec.ilt_s_eq, Spec.ilt_u_eq, Spec.igt_s_eq, Spec.igt_u_eq, Spec.ile_s_eq, Spec.ile_u_eq, Spec.ige_s_eq, Spec.ige_u_eq]
+  all_goals (simp [Spec.bool32, Spec.ieqz_eq, Spec.ieq_eq, Spec.ine_eq, Spec.ilt_s_eq, Spec.ilt_u_eq, Spec.igt_s_eq, Spec.igt_u_eq, Spec.ile_s_eq, Spec.ile_u_eq, Spec.ige_s_eq, Spec.ige_u_eq]; try (split <;> rfl))
 
 set_option maxRecDepth 8192 in
 theorem op_i64_lt_s (x : BitVec 64) (y : BitVec 64) :
     Model.runNumeric macroDefs "wasmOpcodeI64LtS" [(.i64, .u64 x), (.i64, .u64 y)] = .val (.u32 (Spec.ilt_s x y)) := by
   num_unfold; num_eval
-  simp [Spec.bool32, Spec.ieqz_eq, Spec.ieq_eq, Spec.ine_eq, Spec.ilt_s_eq, Spec.ilt_u_eq, Spec.igt_s_eq, Spec.igt_u_eq, Spec.ile_s_eq, Spec.ile_u_eq, Spec.ige_s_eq, Spec.ige_u_eq]
+  all_goals (simp [Spec.bool32, Spec.ieqz_eq, Spec.ieq_eq, Spec.ine_eq, Spec.ilt_s_eq, Spec.ilt_u_eq, Spec.igt_s_eq, Spec.igt_u_eq, Spec.ile_s_eq, Spec.ile_u_eq, Spec.ige_s_eq, Spec.ige_u_eq]; try (split <;> rfl))
 
 set_option maxRecDepth 8192 in
 theorem op_i64_lt_u (x : BitVec 64) (y : BitVec 64) :
     Model.runNumeric macroDefs "wasmOpcodeI64LtU" [(.i64, .u64 x), (.i64, .u64 y)] = .val (.u32 (Spec.ilt_u x y)) := by
   num_unfold; num_eval
-  simp [Spec.bool32, Spec.ieqz_eq, Spec.ieq_eq, Spec.ine_eq, Spec.ilt_s_eq, Spec.ilt_u_eq, Spec.igt_s_eq, Spec.igt_u_eq, Spec.ile_s_eq, Spec.ile_u_eq, Spec.ige_s_eq, Spec.ige_u_eq]
+  all_goals (simp [Spec.bool32, Spec.ieqz_eq, Spec.ieq_eq, Spec.ine_eq, Spec.ilt_s_eq, Spec.ilt_u_eq, Spec.igt_s_eq, Spec.igt_u_eq, Spec.ile_s_eq, Spec.ile_u_eq, Spec.ige_s_eq, Spec.ige_u_eq]; try (split <;> rfl))
 
 set_option maxRecDepth 8192 in
 theorem op_i64_gt_s (x : BitVec 64) (y : BitVec 64) :
     Model.runNumeric macroDefs "wasmOpcodeI64GtS" [(.i64, .u64 x), (.i64, .u64 y)] = .val (.u32 (Spec.igt_s x y)) := by
   num_unfold; num_eval
-  simp [Spec.bool32, Spec.ieqz_eq, Spec.ieq_eq, Spec.ine_eq, Spec.ilt_s_eq, Spec.ilt_u_eq, Spec.igt_s_eq, Spec.igt_u_eq, Spec.ile_s_eq, Spec.ile_u_eq, Spec.ige_s_eq, Spec.ige_u_eq]
+  all_goals (simp [Spec.bool32, Spec.ieqz_eq, Spec.ieq_eq, Spec.ine_eq, Spec.ilt_s_eq, Spec.ilt_u_eq, Spec.igt_s_eq, Spec.igt_u_eq, Spec.ile_s_eq, Spec.ile_u_eq, Spec.ige_s_eq, Spec.ige_u_eq]; try (split <;> rfl))
 
 set_option maxRecDepth 8192 in
 theorem op_i64_gt_u (x : BitVec 64) (y : BitVec 64) :
     Model.runNumeric macroDefs "wasmOpcodeI64GtU" [(.i64, .u64 x), (.i64, .u64 y)] = .val (.u32 (Spec.igt_u x y)) := by
   num_unfold; num_eval
-  simp [Spec.bool32, Spec.ieqz_eq, Spec.ieq_eq, Spec.ine_eq, Spec.ilt_s_eq, Spec.ilt_u_eq, Spec.igt_s_eq, Spec.igt_u_eq, Spec.ile_s_eq, Spec.ile_u_eq, Spec.ige_s_eq, Spec.ige_u_eq]
+  all_goals (simp [Spec.bool32, Spec.ieqz_eq, Spec.ieq_eq, Spec.ine_eq, Spec.ilt_s_eq, Spec.ilt_u_eq, Spec.igt_s_eq, Spec.igt_u_eq, Spec.ile_s_eq, Spec.ile_u_eq, Spec.ige_s_eq, Spec.ige_u_eq]; try (split <;> rfl))
 
 set_option maxRecDepth 8192 in
 theorem op_i64_le_s (x : BitVec 64) (y : BitVec 64) :
     Model.runNumeric macroDefs "wasmOpcodeI64LeS" [(.i64, .u64 x), (.i64, .u64 y)] = .val (.u32 (Spec.ile_s x y)) := by
   num_unfold; num_eval
-  simp [Spec.bool32, Spec.ieqz_eq, Spec.ieq_eq, Spec.ine_eq, Spec.ilt_s_eq, Spec.ilt_u_eq, Spec.igt_s_eq, Spec.igt_u_eq, Spec.ile_s_eq, Spec.ile_u_eq, Spec.ige_s_eq, Spec.ige_u_eq]
+  all_goals (simp [Spec.bool32, Spec.ieqz_eq, Spec.ieq_eq, Spec.ine_eq, Spec.ilt_s_eq, Spec.ilt_u_eq, Spec.igt_s_eq, Spec.igt_u_eq, Spec.ile_s_eq, Spec.ile_u_eq, Spec.ige_s_eq, Spec.ige_u_eq]; try (split <;> rfl))
 
 set_option maxRecDepth 8192 in
 theorem op_i64_le_u (x : BitVec 64) (y : BitVec 64) :
     Model.runNumeric macroDefs "wasmOpcodeI64LeU" [(.i64, .u64 x), (.i64, .u64 y)] = .val (.u32 (Spec.ile_u x y)) := by
   num_unfold; num_eval
-  simp [Spec.bool32, Spec.ieqz_eq, Spec.ieq_eq, Spec.ine_eq, Spec.ilt_s_eq, Spec.ilt_u_eq, Spec.igt_s_eq, Spec.igt_u_eq, Spec.ile_s_eq, Spec.ile_u_eq, Spec.ige_s_eq, Spec.ige_u_eq]
+  all_goals (simp [Spec.bool32, Spec.ieqz_eq, Spec.ieq_eq, Spec.ine_eq, Spec.ilt_s_eq, Spec.ilt_u_eq, Spec.igt_s_eq, Spec.igt_u_eq, Spec.ile_s_eq, Spec.ile_u_eq, Spec.ige_s_eq, Spec.ige_u_eq]; try (split <;> rfl))
 
 set_option maxRecDepth 8192 in
 theorem op_i64_ge_s (x : BitVec 64) (y : BitVec 64) :
     Model.runNumeric macroDefs "wasmOpcodeI64GeS" [(.i64, .u64 x), (.i64, .u64 y)] = .val (.u32 (Spec.ige_s x y)) := by
   num_unfold; num_eval
-  simp [Spec.bool32, Spec.ieqz_eq, Spec.ieq_eq, Spec.ine_eq, Spec.ilt_s_eq, Spec.ilt_u_eq, Spec.igt_s_eq, Spec.igt_u_eq, Spec.ile_s_eq, Spec.ile_u_eq, Spec.ige_s_eq, Spec.ige_u_eq]
+  all_goals (simp [Spec.bool32, Spec.ieqz_eq, Spec.ieq_eq, Spec.ine_eq, Spec.ilt_s_eq, Spec.ilt_u_eq, Spec.igt_s_eq, Spec.igt_u_eq, Spec.ile_s_eq, Spec.ile_u_eq, Spec.ige_s_eq, Spec.ige_u_eq]; try (split <;> rfl))
 
 set_option maxRecDepth 8192 in
 theorem op_i64_ge_u (x : BitVec 64) (y : BitVec 64) :
     Model.runNumeric macroDefs "wasmOpcodeI64GeU" [(.i64, .u64 x), (.i64, .u64 y)] = .val (.u32 (Spec.ige_u x y)) := by
   num_unfold; num_eval
-  simp [Spec.bool32, Spec.ieqz_eq, Spec.ieq_eq, Spec.ine_eq, Spec.ilt_s_eq, Spec.ilt_u_eq, Spec.igt_s_eq, Spec.igt_u_eq, Spec.ile_s_eq, Spec.ile_u_eq, Spec.ige_s_eq, Spec.ige_u_eq]
+  all_goals (simp [Spec.bool32, Spec.ieqz_eq, Spec.ieq_eq, Spec.ine_eq, Spec.ilt_s_eq, Spec.ilt_u_eq, Spec.igt_s_eq, Spec.igt_u_eq, Spec.ile_s_eq, Spec.ile_u_eq, Spec.ige_s_eq, Spec.ige_u_eq]; try (split <;> rfl))
 
 set_option maxRecDepth 8192 in
 theorem op_i64_clz (x : BitVec 64) :
     Model.runNumeric macroDefs "wasmOpcodeI64Clz" [(.i64, .u64 x)] = .val (.u64 (Spec.iclz x)) := by
   num_unfold; num_eval
-  num_bits
+  all_goals (first | rfl | bv_close)
 
 set_option maxRecDepth 8192 in
 theorem op_i64_ctz (x : BitVec 64) :
     Model.runNumeric macroDefs "wasmOpcodeI64Ctz" [(.i64, .u64 x)] = .val (.u64 (Spec.ictz x)) := by
   num_unfold; num_eval
-  num_bits
+  all_goals (first | rfl | bv_close)
 
 set_option maxRecDepth 8192 in
 theorem op_i64_popcnt (x : BitVec 64) :
     Model.runNumeric macroDefs "wasmOpcodeI64PopCnt" [(.i64, .u64 x)] = .val (.u64 (Spec.ipopcnt x)) := by
   num_unfold; num_eval
-  num_bits
+  all_goals (first | rfl | bv_close)
 
 set_option maxRecDepth 8192 in
 theorem op_i64_add (x : BitVec 64) (y : BitVec 64) :
     Model.runNumeric macroDefs "wasmOpcodeI64Add" [(.i64, .u64 x), (.i64, .u64 y)] = .val (.u64 (Spec.iadd x y)) := by
   num_unfold; num_eval
-  first | rfl | (simp [Spec.iadd, Spec.isub, Spec.imul, Spec.iand, Spec.ior, Spec.ixor, Spec.wrap_i64, Spec.extend_i32_s, Spec.extend_i32_u, Spec.iextend_s]; done) | bv_close
+  all_goals first | rfl | (simp [Spec.iadd, Spec.isub, Spec.imul, Spec.iand, Spec.ior, Spec.ixor, Spec.wrap_i64, Spec.extend_i32_s, Spec.extend_i32_u, Spec.iextend_s]; done) | bv_close | (simp only [Spec.wrap_i64, Spec.extend_i32_s, Spec.extend_i32_u, Spec.iextend_s]; bv_close)
 
 set_option maxRecDepth 8192 in
 theorem op_i64_sub (x : BitVec 64) (y : BitVec 64) :
     Model.runNumeric macroDefs "wasmOpcodeI64Sub" [(.i64, .u64 x), (.i64, .u64 y)] = .val (.u64 (Spec.isub x y)) := by
   num_unfold; num_eval
-  first | rfl | (simp [Spec.iadd, Spec.isub, Spec.imul, Spec.iand, Spec.ior, Spec.ixor, Spec.wrap_i64, Spec.extend_i32_s, Spec.extend_i32_u, Spec.iextend_s]; done) | bv_close
+  all_goals first | rfl | (simp [Spec.iadd, Spec.isub, Spec.imul, Spec.iand, Spec.ior, Spec.ixor, Spec.wrap_i64, Spec.extend_i32_s, Spec.extend_i32_u, Spec.iextend_s]; done) | bv_close | (simp only [Spec.wrap_i64, Spec.extend_i32_s, Spec.extend_i32_u, Spec.iextend_s]; bv_close)
 
 set_option maxRecDepth 8192 in
 theorem op_i64_mul (x : BitVec 64) (y : BitVec 64) :
     Model.runNumeric macroDefs "wasmOpcodeI64Mul" [(.i64, .u64 x), (.i64, .u64 y)] = .val (.u64 (Spec.imul x y)) := by
   num_unfold; num_eval
-  first | rfl | (simp [Spec.iadd, Spec.isub, Spec.imul, Spec.iand, Spec.ior, Spec.ixor, Spec.wrap_i64, Spec.extend_i32_s, Spec.extend_i32_u, Spec.iextend_s]; done) | bv_close
+  all_goals first | rfl | (simp [Spec.iadd, Spec.isub, Spec.imul, Spec.iand, Spec.ior, Spec.ixor, Spec.wrap_i64, Spec.extend_i32_s, Spec.extend_i32_u, Spec.iextend_s]; done) | bv_close | (simp only [Spec.wrap_i64, Spec.extend_i32_s, Spec.extend_i32_u, Spec.iextend_s]; bv_close)
 
 set_option maxRecDepth 8192 in
 theorem op_i64_div_s (x : BitVec 64) (y : BitVec 64) :
     Model.runNumeric macroDefs "wasmOpcodeI64DivS" [(.i64, .u64 x), (.i64, .u64 y)] = (Spec.idiv_s x y).map' .u64 := by
   num_unfold; num_eval
-  cases Spec.idiv_s x y <;> simp
+  cases Spec.idiv_s x y <;> simp [CVal.fromNat, Env.get]
 
 set_option maxRecDepth 8192 in
 theorem op_i64_div_u (x : BitVec 64) (y : BitVec 64) :
     Model.runNumeric macroDefs "wasmOpcodeI64DivU" [(.i64, .u64 x), (.i64, .u64 y)] = (Spec.idiv_u x y).map' .u64 := by
   num_unfold; num_eval
-  cases Spec.idiv_u x y <;> simp
+  cases Spec.idiv_u x y <;> simp [CVal.fromNat, Env.get]
 
 set_option maxRecDepth 8192 in
 theorem op_i64_rem_s (x : BitVec 64) (y : BitVec 64) :
     Model.runNumeric macroDefs "wasmOpcodeI64RemS" [(.i64, .u64 x), (.i64, .u64 y)] = (Spec.irem_s x y).map' .u64 := by
   num_unfold; num_eval
-  cases Spec.irem_s x y <;> simp
+  cases Spec.irem_s x y <;> simp [CVal.fromNat, Env.get]
 
 set_option maxRecDepth 8192 in
 theorem op_i64_rem_u (x : BitVec 64) (y : BitVec 64) :
     Model.runNumeric macroDefs "wasmOpcodeI64RemU" [(.i64, .u64 x), (.i64, .u64 y)] = (Spec.irem_u x y).map' .u64 := by
   num_unfold; num_eval
-  cases Spec.irem_u x y <;> simp
+  cases Spec.irem_u x y <;> simp [CVal.fromNat, Env.get]
 
 set_option maxRecDepth 8192 in
 theorem op_i64_and (x : BitVec 64) (y : BitVec 64) :
     Model.runNumeric macroDefs "wasmOpcodeI64And" [(.i64, .u64 x), (.i64, .u64 y)] = .val (.u64 (Spec.iand x y)) := by
   num_unfold; num_eval
-  first | rfl | (simp [Spec.iadd, Spec.isub, Spec.imul, Spec.iand, Spec.ior, Spec.ixor, Spec.wrap_i64, Spec.extend_i32_s, Spec.extend_i32_u, Spec.iextend_s]; done) | bv_close
+  all_goals first | rfl | (simp [Spec.iadd, Spec.isub, Spec.imul, Spec.iand, Spec.ior, Spec.ixor, Spec.wrap_i64, Spec.extend_i32_s, Spec.extend_i32_u, Spec.iextend_s]; done) | bv_close | (simp only [Spec.wrap_i64, Spec.extend_i32_s, Spec.extend_i32_u, Spec.iextend_s]; bv_close)
 
 set_option maxRecDepth 8192 in
 theorem op_i64_or (x : BitVec 64) (y : BitVec 64) :
     Model.runNumeric macroDefs "wasmOpcodeI64Or" [(.i64, .u64 x), (.i64, .u64 y)] = .val (.u64 (Spec.ior x y)) := by
   num_unfold; num_eval
-  first | rfl | (simp [Spec.iadd, Spec.isub, Spec.imul, Spec.iand, Spec.ior, Spec.ixor, Spec.wrap_i64, Spec.extend_i32_s, Spec.extend_i32_u, Spec.iextend_s]; done) | bv_close
+  all_goals first | rfl | (simp [Spec.iadd, Spec.isub, Spec.imul, Spec.iand, Spec.ior, Spec.ixor, Spec.wrap_i64, Spec.extend_i32_s, Spec.extend_i32_u, Spec.iextend_s]; done) | bv_close | (simp only [Spec.wrap_i64, Spec.extend_i32_s, Spec.extend_i32_u, Spec.iextend_s]; bv_close)
 
 set_option maxRecDepth 8192 in
 theorem op_i64_xor (x : BitVec 64) (y : BitVec 64) :
     Model.runNumeric macroDefs "wasmOpcodeI64Xor" [(.i64, .u64 x), (.i64, .u64 y)] = .val (.u64 (Spec.ixor x y)) := by
   num_unfold; num_eval
-  first | rfl | (simp [Spec.iadd, Spec.isub, Spec.imul, Spec.iand, Spec.ior, Spec.ixor, Spec.wrap_i64, Spec.extend_i32_s, Spec.extend_i32_u, Spec.iextend_s]; done) | bv_close
+  all_goals first | rfl | (simp [Spec.iadd, Spec.isub, Spec.imul, Spec.iand, Spec.ior, Spec.ixor, Spec.wrap_i64, Spec.extend_i32_s, Spec.extend_i32_u, Spec.iextend_s]; done) | bv_close | (simp only [Spec.wrap_i64, Spec.extend_i32_s, Spec.extend_i32_u, Spec.iextend_s]; bv_close)
 
 set_option maxRecDepth 8192 in
 theorem op_i64_shl (x : BitVec 64) (y : BitVec 64) :
     Model.runNumeric macroDefs "wasmOpcodeI64Shl" [(.i64, .u64 x), (.i64, .u64 y)] = .val (.u64 (Spec.ishl x y)) := by
   num_unfold; num_eval
-  simp only [Spec.ishl_eq64]; bv_close
+  all_goals (simp only [Spec.ishl_eq64]; bv_close)
 
 set_option maxRecDepth 8192 in
 theorem op_i64_shr_s (x : BitVec 64) (y : BitVec 64) :
     Model.runNumeric macroDefs "wasmOpcodeI64ShrS" [(.i64, .u64 x), (.i64, .u64 y)] = .val (.u64 (Spec.ishr_s x y)) := by
   num_unfold; num_eval
-  simp only [Spec.ishr_s_eq64]; bv_close
+  all_goals (simp only [Spec.ishr_s_eq64]; bv_close)
 
 set_option maxRecDepth 8192 in
 theorem op_i64_shr_u (x : BitVec 64) (y : BitVec 64) :
     Model.runNumeric macroDefs "wasmOpcodeI64ShrU" [(.i64, .u64 x), (.i64, .u64 y)] = .val (.u64 (Spec.ishr_u x y)) := by
   num_unfold; num_eval
-  simp only [Spec.ishr_u_eq64]; bv_close
+  all_goals (simp only [Spec.ishr_u_eq64]; bv_close)
 
 set_option maxRecDepth 8192 in
 theorem op_i64_rotl (x : BitVec 64) (y : BitVec 64) :
     Model.runNumeric macroDefs "wasmOpcodeI64Rotl" [(.i64, .u64 x), (.i64, .u64 y)] = .val (.u64 (Spec.irotl x y)) := by
   num_unfold; num_eval
-  first | rfl | (simp [Spec.iadd, Spec.isub, Spec.imul, Spec.iand, Spec.ior, Spec.ixor, Spec.wrap_i64, Spec.extend_i32_s, Spec.extend_i32_u, Spec.iextend_s]; done) | bv_close
+  all_goals first | rfl | (simp [Spec.iadd, Spec.isub, Spec.imul, Spec.iand, Spec.ior, Spec.ixor, Spec.wrap_i64, Spec.extend_i32_s, Spec.extend_i32_u, Spec.iextend_s]; done) | bv_close | (simp only [Spec.wrap_i64, Spec.extend_i32_s, Spec.extend_i32_u, Spec.iextend_s]; bv_close)
 
 set_option maxRecDepth 8192 in
 theorem op_i64_rotr (x : BitVec 64) (y : BitVec 64) :
     Model.runNumeric macroDefs "wasmOpcodeI64Rotr" [(.i64, .u64 x), (.i64, .u64 y)] = .val (.u64 (Spec.irotr x y)) := by
   num_unfold; num_eval
-  first | rfl | (simp [Spec.iadd, Spec.isub, Spec.imul, Spec.iand, Spec.ior, Spec.ixor, Spec.wrap_i64, Spec.extend_i32_s, Spec.extend_i32_u, Spec.iextend_s]; done) | bv_close
+  all_goals first | rfl | (simp [Spec.iadd, Spec.isub, Spec.imul, Spec.iand, Spec.ior, Spec.ixor, Spec.wrap_i64, Spec.extend_i32_s, Spec.extend_i32_u, Spec.iextend_s]; done) | bv_close | (simp only [Spec.wrap_i64, Spec.extend_i32_s, Spec.extend_i32_u, Spec.iextend_s]; bv_close)
 
 set_option maxRecDepth 8192 in
 theorem op_i32_wrap_i64 (x : BitVec 64) :
     Model.runNumeric macroDefs "wasmOpcodeI32WrapI64" [(.i64, .u64 x)] = .val (.u32 (Spec.wrap_i64 x)) := by
   num_unfold; num_eval
-  first | rfl | (simp [Spec.iadd, Spec.isub, Spec.imul, Spec.iand, Spec.ior, Spec.ixor, Spec.wrap_i64, Spec.extend_i32_s, Spec.extend_i32_u, Spec.iextend_s]; done) | bv_close
+  all_goals first | rfl | (simp [Spec.iadd, Spec.isub, Spec.imul, Spec.iand, Spec.ior, Spec.ixor, Spec.wrap_i64, Spec.extend_i32_s, Spec.extend_i32_u, Spec.iextend_s]; done) | bv_close | (simp only [Spec.wrap_i64, Spec.extend_i32_s, Spec.extend_i32_u, Spec.iextend_s]; bv_close)
 
 set_option maxRecDepth 8192 in
 theorem op_i64_extend_i32_s (x : BitVec 32) :
     Model.runNumeric macroDefs "wasmOpcodeI64ExtendI32S" [(.i32, .u32 x)] = .val (.u64 (Spec.extend_i32_s x)) := by
   num_unfold; num_eval
-  first | rfl | (simp [Spec.iadd, Spec.isub, Spec.imul, Spec.iand, Spec.ior, Spec.ixor, Spec.wrap_i64, Spec.extend_i32_s, Spec.extend_i32_u, Spec.iextend_s]; done) | bv_close
+  all_goals first | rfl | (simp [Spec.iadd, Spec.isub, Spec.imul, Spec.iand, Spec.ior, Spec.ixor, Spec.wrap_i64, Spec.extend_i32_s, Spec.extend_i32_u, Spec.iextend_s]; done) | bv_close | (simp only [Spec.wrap_i64, Spec.extend_i32_s, Spec.extend_i32_u, Spec.iextend_s]; bv_close)
 
 set_option maxRecDepth 8192 in
 theorem op_i64_extend_i32_u (x : BitVec 32) :
     Model.runNumeric macroDefs "wasmOpcodeI64ExtendI32U" [(.i32, .u32 x)] = .val (.u64 (Spec.extend_i32_u x)) := by
   num_unfold; num_eval
-  first | rfl | (simp [Spec.iadd, Spec.isub, Spec.imul, Spec.iand, Spec.ior, Spec.ixor, Spec.wrap_i64, Spec.extend_i32_s, Spec.extend_i32_u, Spec.iextend_s]; done) | bv_close
+  all_goals first | rfl | (simp [Spec.iadd, Spec.isub, Spec.imul, Spec.iand, Spec.ior, Spec.ixor, Spec.wrap_i64, Spec.extend_i32_s, Spec.extend_i32_u, Spec.iextend_s]; done) | bv_close | (simp only [Spec.wrap_i64, Spec.extend_i32_s, Spec.extend_i32_u, Spec.iextend_s]; bv_close)
 
 set_option maxRecDepth 8192 in
 theorem op_i32_extend8_s (x : BitVec 32) :
     Model.runNumeric macroDefs "wasmOpcodeI32Extend8S" [(.i32, .u32 x)] = .val (.u32 (Spec.iextend_s 8 x)) := by
   num_unfold; num_eval
-  first | rfl | (simp [Spec.iadd, Spec.isub, Spec.imul, Spec.iand, Spec.ior, Spec.ixor, Spec.wrap_i64, Spec.extend_i32_s, Spec.extend_i32_u, Spec.iextend_s]; done) | bv_close
+  all_goals first | rfl | (simp [Spec.iadd, Spec.isub, Spec.imul, Spec.iand, Spec.ior, Spec.ixor, Spec.wrap_i64, Spec.extend_i32_s, Spec.extend_i32_u, Spec.iextend_s]; done) | bv_close | (simp only [Spec.wrap_i64, Spec.extend_i32_s, Spec.extend_i32_u, Spec.iextend_s]; bv_close)
 
 set_option maxRecDepth 8192 in
 theorem op_i32_extend16_s (x : BitVec 32) :
     Model.runNumeric macroDefs "wasmOpcodeI32Extend16S" [(.i32, .u32 x)] = .val (.u32 (Spec.iextend_s 16 x)) := by
   num_unfold; num_eval
-  first | rfl | (simp [Spec.iadd, Spec.isub, Spec.imul, Spec.iand, Spec.ior, Spec.ixor, Spec.wrap_i64, Spec.extend_i32_s, Spec.extend_i32_u, Spec.iextend_s]; done) | bv_close
+  all_goals first | rfl | (simp [Spec.iadd, Spec.isub, Spec.imul, Spec.iand, Spec.ior, Spec.ixor, Spec.wrap_i64, Spec.extend_i32_s, Spec.extend_i32_u, Spec.iextend_s]; done) | bv_close | (simp only [Spec.wrap_i64, Spec.extend_i32_s, Spec.extend_i32_u, Spec.iextend_s]; bv_close)
 
 set_option maxRecDepth 8192 in
 theorem op_i64_extend8_s (x : BitVec 64) :
     Model.runNumeric macroDefs "wasmOpcodeI64Extend8S" [(.i64, .u64 x)] = .val (.u64 (Spec.iextend_s 8 x)) := by
   num_unfold; num_eval
-  first | rfl | (simp [Spec.iadd, Spec.isub, Spec.imul, Spec.iand, Spec.ior, Spec.ixor, Spec.wrap_i64, Spec.extend_i32_s, Spec.extend_i32_u, Spec.iextend_s]; done) | bv_close
+  all_goals first | rfl | (simp [Spec.iadd, Spec.isub, Spec.imul, Spec.iand, Spec.ior, Spec.ixor, Spec.wrap_i64, Spec.extend_i32_s, Spec.extend_i32_u, Spec.iextend_s]; done) | bv_close | (simp only [Spec.wrap_i64, Spec.extend_i32_s, Spec.extend_i32_u, Spec.iextend_s]; bv_close)
 
 set_option maxRecDepth 8192 in
 theorem op_i64_extend16_s (x : BitVec 64) :
     Model.runNumeric macroDefs "wasmOpcodeI64Extend16S" [(.i64, .u64 x)] = .val (.u64 (Spec.iextend_s 16 x)) := by
   num_unfold; num_eval
-  first | rfl | (simp [Spec.iadd, Spec.isub, Spec.imul, Spec.iand, Spec.ior, Spec.ixor, Spec.wrap_i64, Spec.extend_i32_s, Spec.extend_i32_u, Spec.iextend_s]; done) | bv_close
+  all_goals first | rfl | (simp [Spec.iadd, Spec.isub, Spec.imul, Spec.iand, Spec.ior, Spec.ixor, Spec.wrap_i64, Spec.extend_i32_s, Spec.extend_i32_u, Spec.iextend_s]; done) | bv_close | (simp only [Spec.wrap_i64, Spec.extend_i32_s, Spec.extend_i32_u, Spec.iextend_s]; bv_close)
 
 set_option maxRecDepth 8192 in
 theorem op_i64_extend32_s (x : BitVec 64) :
     Model.runNumeric macroDefs "wasmOpcodeI64Extend32S" [(.i64, .u64 x)] = .val (.u64 (Spec.iextend_s 32 x)) := by
   num_unfold; num_eval
-  first | rfl | (simp [Spec.iadd, Spec.isub, Spec.imul, Spec.iand, Spec.ior, Spec.ixor, Spec.wrap_i64, Spec.extend_i32_s, Spec.extend_i32_u, Spec.iextend_s]; done) | bv_close
+  all_goals first | rfl | (simp [Spec.iadd, Spec.isub, Spec.imul, Spec.iand, Spec.ior, Spec.ixor, Spec.wrap_i64, Spec.extend_i32_s, Spec.extend_i32_u, Spec.iextend_s]; done) | bv_close | (simp only [Spec.wrap_i64, Spec.extend_i32_s, Spec.extend_i32_u, Spec.iextend_s]; bv_close)
 
 end W2c2Verif.Props.C01
